@@ -8,7 +8,9 @@
   * `parseBits_printBits_f64`, `parseBits_printBits_f32`: `parseBits (printBits b) = some b` for every non-NaN
     bit pattern (both signs, zeros, infinities, subnormals, normals) — no hypothesis;
   * `printBits_clean`, `printBits_ne_nil`: printed numbers are non-empty and made of number characters — no hypothesis;
-  * the ingredients: `parseDecimal_renderDecimal`, `roundRat_of_inInterval`, `shortestDigits_inInterval`;
+  * the ingredients: `parseDecimal_renderDecimal`, `roundRat_of_inInterval`, `shortestDigits_inInterval`; and the full
+    specification of the decimal → binary rounding, `roundRat_spec` (nearest, ties to even, underflow to 0, overflow to
+    infinity) with `roundRat_eq_iff` (`roundRat f num den = b ↔ num/den ∈ rounding interval of b`);
   * `codecLaws_float`, `codecLaws_float32`: `CodecLaws` for the driver's `Float` / `Float32` instances on the non-NaN
     values, from ONE hypothesis each about Lean's opaque runtime floats (`FloatBitsLaw`: `ofBits (toBits x) = x` and
     `toBits x` is not a NaN pattern, for non-NaN `x`), which the kernel cannot see through;
@@ -23,6 +25,7 @@
 -/
 import RosuModel.Props.C02
 import RosuModel.Lemmas.FloatCodecLawsInst
+import RosuModel.Lemmas.FloatCodecLawsSpec
 namespace Rosu.C02
 open Rosu Encode EncodeLines C11 FCL
 
@@ -51,6 +54,18 @@ theorem parseDecimal_renderDecimal (d : Nat) (k : Int) (hd : 0 < d) :
 theorem roundRat_of_inInterval (f : FloatFmt) (hp : 2 ≤ f.p) (b : Nat) (hb0 : 0 < b) (hbi : b < f.infBits)
     (num den : Nat) (hnum : 0 < num) (hden : 0 < den) (h : InIv f b num den) : roundRat f num den = b :=
   FCL.roundRat_of_inInterval f hp b hb0 hbi num den hnum hden h
+
+/-- **correct rounding** of a positive fraction: 0 (at most half the smallest subnormal), or a finite pattern whose
+rounding interval contains the fraction, or infinity (at least the midpoint above the largest finite value). -/
+theorem roundRat_spec (f : FloatFmt) (hp : 2 ≤ f.p) (he2 : 2 ≤ f.ebits) (num den : Nat) (hnum : 0 < num) (hden : 0 < den) :
+    (roundRat f num den = 0 ∧ GeS num den 1 (f.eminSub - 1)) ∨
+    (0 < roundRat f num den ∧ roundRat f num den < f.infBits ∧ InIv f (roundRat f num den) num den) ∨
+    (roundRat f num den = f.infBits ∧ LeS (2 ^ (f.p + 1) - 1) (emaxE f - 1) num den) :=
+  FCL.roundRat_spec f hp he2 num den hnum hden
+
+theorem roundRat_eq_iff (f : FloatFmt) (hp : 2 ≤ f.p) (he2 : 2 ≤ f.ebits) (b : Nat) (hb0 : 0 < b) (hbi : b < f.infBits)
+    (num den : Nat) (hnum : 0 < num) (hden : 0 < den) : roundRat f num den = b ↔ InIv f b num den :=
+  FCL.roundRat_eq_iff f hp he2 b hb0 hbi num den hnum hden
 
 /-- binary → decimal: the digits chosen denote a value inside the rounding interval. -/
 theorem shortestDigits_inInterval (f : FloatFmt) (hp : 1 ≤ f.p) (b : Nat) (hb0 : 0 < b) :
